@@ -24,7 +24,11 @@ R4 gather firing (`GatherStep.run`): element key = tag minus the last `self.dept
    `len(token_map[key]) == size` with equality, call `_gather(key)` and mark the key completed; every
    task (initial and re-armed) pairs its name with the port it reads, each branch re-arms the port it
    consumed before the next task is examined; after the loop the non-completed keys are gathered,
-   unless the status is FAILED, after the size entry was refreshed.
+   unless the status is FAILED, after the size entry was refreshed.  The arrival test, the FAILED guard and the
+   completed-keys filter are read as branch facts (sfverif.facts: `==` / `!=` / `not ...` / swapped arms / a conjunct /
+   a local boolean are the same atom); which arrival a definition of the re-armed local port serves is decided on the
+   CFG (the arm it lies in, or the arrival edges it reaches without being overwritten), so a default assigned before
+   the branch and a guard-clause shape with one re-arm per arm are accepted, a stale or wrong port in either is not.
 R5 stable consumer identity of the port readers (every concrete `Step.run` with a `while` task loop, found through
    the class table: GatherStep, CombinatorStep, LoopCombinatorStep, ScatterStep, LoopOutputStep today).  `Port.get(consumer)`
    registers an unknown consumer as NEW and replays the port's whole token_list to it, so a reader that comes back
@@ -62,6 +66,7 @@ import ast
 import copy
 
 from ..cfg import NORMAL
+from ..facts import atoms, region
 from ..model import dotted, unparse
 from ..selftest import V
 from ._util_A import (
@@ -799,6 +804,66 @@ def _task_creations(p, f):
     return out
 
 
+def _expand_test(f, t):
+    """The condition of CFG test node `t` with local booleans (`is_size = name == '__size__'` ... `if is_size:`)
+    replaced by what they were assigned (new BoolOp / Not shells only; the leaves are the analysed nodes)."""
+
+    def expand(x, depth=3):
+        if depth > 0 and isinstance(x, ast.Name):
+            o = single_origin(f, x, t.id)
+            if o is not None and not isinstance(o, ast.Name):
+                return expand(o, depth - 1)
+            return x
+        if isinstance(x, ast.BoolOp):
+            return ast.BoolOp(op=x.op, values=[expand(v, depth) for v in x.values])
+        if isinstance(x, ast.UnaryOp) and isinstance(x.op, ast.Not):
+            return ast.UnaryOp(op=x.op, operand=expand(x.operand, depth))
+        return x
+
+    return expand(t.ast)
+
+
+def _fact_edges(f, g, is_atom):
+    """[(test id, edge kind, truth)]: the edges of CFG tests on which an atom recognised by `is_atom(atom, test id)` is
+    implied to hold (truth True) / not to hold (False), whatever the spelling of the test (sfverif.facts.atoms)."""
+    out = []
+    for t in g.nodes.values():
+        if t.kind != "test" or t.ast is None:
+            continue
+        e = _expand_test(f, t)
+        for kind, val in (("t", True), ("f", False)):
+            for a, v in atoms(e, val):
+                if is_atom(a, t.id):
+                    out.append((t.id, kind, v))
+    return out
+
+
+def _edge_region(g, edges, truth) -> set:
+    """Nodes that are only reached (from their test) through an edge on which the atom has value `truth`."""
+    out = set()
+    for tid, kind, v in edges:
+        if v == truth:
+            out |= region(g, tid, kind)
+    return out
+
+
+def _serves(g, src, dst, edges, truth, reg, others, other_reg) -> bool:
+    """The value defined at node `src` can arrive at (one of) `dst` for an arrival on which the atom has value `truth`:
+    `src` lies in that arrival's region, or a test reachable from `src` (no other definition in between) has an edge
+    implying it; and `dst` is reached from there without touching another definition or the other arrival's region."""
+    avoid = set(others) | (set(other_reg) - set(reg))
+    if src is not None and src in reg and (src in dst or dst & g.reach([src], avoid=avoid)):
+        return True
+    fwd = g.reach([src], avoid=others, include_src=True) if src is not None else None  # None: whatever was defined before
+    for tid, kind, v in edges:
+        if v != truth or (fwd is not None and tid not in fwd):
+            continue
+        for s_ in branch_succ(g, tid, kind):
+            if s_ not in avoid and (s_ in dst or dst & g.reach([s_], avoid=avoid)):
+                return True
+    return False
+
+
 def r4(ctx):
     p = ctx.prog
     require_members(ctx, GATHER, ["run", "_gather", "get_size_port", "get_input_port", "_get_input_port_name"], ["token_map", "size_map", "depth"])
@@ -964,12 +1029,22 @@ def r4(ctx):
                message=f"task named `{unparse(name)}` reads `{unparse(port)}`: size and element tokens are confused")
     ctx.ob("R4", "run: one initial task per port", seen_init == {"size", "input"}, func=f, node=wl, instance="run:task:both",
            message=f"initial tasks cover only {sorted(seen_init)}")
-    size_tests = [t for t in g.nodes.values() if t.kind == "test" and isinstance(t.ast, ast.Compare) and len(t.ast.ops) == 1
-                  and isinstance(t.ast.ops[0], (ast.Eq, ast.NotEq))
-                  and ((is_const(t.ast.comparators[0], "__size__") and is_task_name(t.ast.left, t.id))
-                       or (is_const(t.ast.left, "__size__") and is_task_name(t.ast.comparators[0], t.id)))]
+
+    def is_size_atom(a, tid):
+        """canonical atom `<consumed task's name> == '__size__'` (either operand order)"""
+        if not (isinstance(a, ast.Compare) and len(a.ops) == 1 and isinstance(a.ops[0], ast.Eq)):
+            return False
+        l, r = a.left, a.comparators[0]
+        return (is_const(r, "__size__") and is_task_name(l, tid)) or (is_const(l, "__size__") and is_task_name(r, tid))
+
+    # the edges on which the consumed task is known (not) to be the size reader, however the test is spelled
+    # (`==` / `!=` / `not ... ==` / swapped arms / a conjunct of a larger guard / a local boolean)
+    arrival = _fact_edges(f, g, is_size_atom)
+    size_reg = _edge_region(g, arrival, True)
+    input_reg = _edge_region(g, arrival, False)
     ctx.ob("R4", "run: tokens are re-armed after processing", bool(rearm), func=f, node=wl, instance="run:rearm:exists",
            message="no port is re-armed inside the loop: only the first token of each port is read")
+    need_all, by_local = set(), False
     for c, port, name in rearm:
         nid = nid_of(f, c)
         nk = name_kind(name, nid)
@@ -982,46 +1057,62 @@ def r4(ctx):
             ok = is_task_name(pk[1], nid)
             msg = f"re-arm reads the port keyed by `{unparse(pk[1])}`, not by the consumed task's name"
         elif isinstance(port, ast.Name):
+            by_local = True
             ds = rdefs(f, port.id, nid, use=port)
-            ctx.require(len(size_tests) == 1, "C01.R4: GatherStep.run: branch test `task_name == '__size__'` not found")
-            ts = size_tests[0]
-            t_edge = "t" if isinstance(ts.ast.ops[0], ast.Eq) else "f"
-            f_edge = "f" if t_edge == "t" else "t"
+            ctx.require(any(v for _t, _k, v in arrival) and any(not v for _t, _k, v in arrival),
+                        "C01.R4: GatherStep.run: branch test `task_name == '__size__'` not found")
+            regs = {"size": size_reg, "input": input_reg}
+            rn_ = set(g.node_containing(c))
+            # tests that classify the arrival on both edges: a definition that reaches the re-arm around all of them
+            # re-arms a port for an arrival that was never told apart
+            both = {t for t, _k, v in arrival if v} & {t for t, _k, v in arrival if not v}
             cover = set()
             for d in ds:
-                if d.kind != "assign" or d.index is not None or d.nid is None:
+                if d.kind not in ("assign", "walrus") or d.index is not None or d.nid is None:
                     ok, msg = False, f"`{port.id}` may be unbound or is not a plain assignment on some path to the re-arm"
                     break
                 vk = port_kind(d.value, d.nid)
-                if only_via(g, ts.id, t_edge, d.nid):
-                    br = "size"
-                elif only_via(g, ts.id, f_edge, d.nid):
-                    br = "input"
-                else:
+                others = {x.nid for x in ds if x is not d and x.nid is not None and x.nid != d.nid}
+                served = {br for br in ("size", "input")
+                          if _serves(g, d.nid, rn_, arrival, br == "size", regs[br], others, regs["input" if br == "size" else "size"])}
+                if d.nid in size_reg and d.nid in input_reg:
+                    ctx.require(False, f"C01.R4: GatherStep.run: `{unparse(g.nodes[d.nid].ast)}` lies in both arrival branches (contradictory tests): shape not supported")
+                if d.nid not in size_reg and d.nid not in input_reg and (
+                        not served or g.path(d.nid, rn_, avoid=others | both, kinds=NORMAL) is not None):
                     ok, msg = False, f"`{port.id}` is assigned outside the two arrival branches"
                     break
-                cover.add(br)
-                if vk != br:
+                cover |= served
+                wrong_br = sorted(br for br in served if vk != br)
+                if wrong_br:
+                    br = wrong_br[0]
                     ok, msg = False, f"after a token from the {br} port the step re-arms `{unparse(d.value)}` ({vk} port): the {br} port is never read again and the other one is read twice"
                     break
-            if ok and cover != {"size", "input"}:
+            # the arrivals that can get to this re-arm at all (a guard-clause shape may re-arm in each arm separately)
+            need = {br for br in ("size", "input")
+                    if _serves(g, None, rn_, arrival, br == "size", regs[br], (), regs["input" if br == "size" else "size"])}
+            need_all |= need
+            if ok and not (need and cover >= need):
                 ok, msg = False, f"re-armed port is only assigned in the {sorted(cover)} branch"
         else:
             ctx.require(False, f"C01.R4: GatherStep.run: re-arm receiver `{unparse(port)}` not understood")
         ctx.ob("R4", "run: each arrival branch re-arms the port it consumed", ok, func=f, node=c, instance="run:rearm:port", message=msg)
-        # must-pass-through: from every firing test to the next task / loop iteration
-        rn = g.node_containing(c)
+    if by_local:
+        ctx.ob("R4", "run: both arrivals reach a re-arm of the local port", need_all == {"size", "input"}, func=f, node=wl, instance="run:rearm:both",
+               message=f"only the {sorted(need_all)} arrival reaches a re-arm")
+    # must-pass-through: from every firing test to the next task / loop iteration (some re-arm: a guard-clause shape has one per arm)
+    rn = [i for c, _p, _n in rearm for i in g.node_containing(c)]
+    heads = [n.id for n in g.nodes.values() if n.kind == "test" and n.ast is wl.test]
+    for c, _p, _n in rearm:
         inner_for = None
         for a in [x for x in ast.walk(wl) if isinstance(x, (ast.For, ast.AsyncFor))]:
             if in_subtree(c, a):
                 inner_for = a
-        heads = g.ids_of(inner_for) if inner_for is not None else []
-        heads = heads + [n.id for n in g.nodes.values() if n.kind == "test" and n.ast is wl.test]
-        for t in tests_all:
-            w = g.escape(t.id, rn, targets=heads + [g.exit], kinds=NORMAL)
-            ctx.ob("R4", f"run: after `{t.text(50)}` the consumed port is re-armed before the next task is examined", w is None,
-                   func=f, node=t.ast, instance=f"run:rearm:path:{t.text(80)}", message="a path from the firing test reaches the next task without re-arming the port",
-                   witness=g.describe(w) if w else [])
+        heads = heads + [i for i in (g.ids_of(inner_for) if inner_for is not None else []) if i not in heads]
+    for t in (tests_all if rearm else []):
+        w = g.escape(t.id, rn, targets=heads + [g.exit], kinds=NORMAL)
+        ctx.ob("R4", f"run: after `{t.text(50)}` the consumed port is re-armed before the next task is examined", w is None,
+               func=f, node=t.ast, instance=f"run:rearm:path:{t.text(80)}", message="a path from the firing test reaches the next task without re-arming the port",
+               witness=g.describe(w) if w else [])
 
     # --- forced gather after the loop
     ctx.ob("R4", "run: non-completed keys are gathered (awaited) after the loop", bool(forced) and all(awaited(c) for c in forced), func=f, node=wl, instance="run:forced:exists",
@@ -1061,17 +1152,16 @@ def r4(ctx):
         for t in g.nodes.values():
             if t.kind != "test" or not in_subtree(t.ast, loop) or not g.dominates(t.id, cn):
                 continue
-            x = t.ast
-            neg = False
-            while isinstance(x, ast.UnaryOp) and isinstance(x.op, ast.Not):
-                x, neg = x.operand, not neg
-            if isinstance(x, ast.Compare) and len(x.ops) == 1 and isinstance(x.ops[0], (ast.NotIn, ast.In)) and isinstance(x.comparators[0], ast.Name) \
-                    and x.comparators[0].id in completed_sets:
-                edge = "t" if isinstance(x.ops[0], ast.NotIn) != neg else "f"
-                if only_via(g, t.id, edge, cn):
-                    filt = True
-                else:
-                    wrong = f"`{unparse(t.ast)}` lets only the already gathered keys through"
+            # the edge on which `<key> in <completed>` is known to be false must be the one that leads to the gather
+            # (facts: `not in` / `not (... in ...)` / a conjunct of a larger guard are the same atom)
+            for edge, val in (("t", True), ("f", False)):
+                for x, v in atoms(t.ast, val):
+                    if isinstance(x, ast.Compare) and len(x.ops) == 1 and isinstance(x.ops[0], ast.In) and isinstance(x.comparators[0], ast.Name) \
+                            and x.comparators[0].id in completed_sets and only_via(g, t.id, edge, cn):
+                        if not v:
+                            filt = True
+                        else:
+                            wrong = f"`{unparse(t.ast)}` lets only the already gathered keys through"
         ctx.ob("R4", "run: the forced gather skips the keys completed inside the loop", filt and not wrong, func=f, node=loop, instance="run:forced:filter",
                message=wrong or "completed keys are gathered a second time after the loop (duplicate output list)")
         over_map = any(dotted(x) == "self.token_map" for s in [loop.iter] for x in ast.walk(s))
@@ -1079,14 +1169,18 @@ def r4(ctx):
                message=f"forced gather iterates `{unparse(loop.iter)}`")
         guards = []
         for t in g.nodes.values():
-            if t.kind != "test" or not isinstance(t.ast, ast.Compare) or len(t.ast.ops) != 1:
+            if t.kind != "test" or t.ast is None:
                 continue
-            if not any(isinstance(x, ast.Attribute) and x.attr == "FAILED" for x in ast.walk(t.ast)):
+            te = _expand_test(f, t)
+            if not any(isinstance(x, ast.Attribute) and x.attr == "FAILED" for x in ast.walk(te)):
                 continue
-            op = t.ast.ops[0]
-            edge = "t" if isinstance(op, (ast.NotEq, ast.IsNot)) else ("f" if isinstance(op, (ast.Eq, ast.Is)) else None)
-            if edge and g.dominates(t.id, cn) and only_via(g, t.id, edge, cn):
-                guards.append(t)
+            # the edge on which `<status> == FAILED` is known to be false (`!=`, `is not`, `not ... ==`, swapped arms,
+            # a conjunct of a larger guard) is the only one that leads to the gather
+            for edge, val in (("t", True), ("f", False)):
+                if any(not v and isinstance(x, ast.Compare) and len(x.ops) == 1 and isinstance(x.ops[0], (ast.Eq, ast.Is))
+                       and any(isinstance(y, ast.Attribute) and y.attr == "FAILED" for y in ast.walk(x)) for x, v in atoms(te, val)):
+                    if g.dominates(t.id, cn) and only_via(g, t.id, edge, cn):
+                        guards.append(t)
         ctx.ob("R4", "run: no forced gather when the status is FAILED", bool(guards), func=f, node=c, instance="run:forced:failed-guard",
                message="partial lists are emitted as if complete when an input port failed")
         stores = [n.id for n in g.nodes.values() if n.kind == "stmt" and isinstance(n.ast, ast.Assign)
@@ -1353,6 +1447,22 @@ _LCR = f"{STEP}.LoopCombinatorStep.run"
 _ELEM_PUT = "await self._persist_token(token=t.retag(token.tag + '.' + str(i)), port=output_port, input_token_ids=get_entity_ids([token]))"
 _SIZE_PUT = "await self._persist_token(token=Token(len(token.value), tag=token.tag, recoverable=True), port=size_port, input_token_ids=get_entity_ids([token]))"
 
+_SZ_ARM = ("                    self.size_map[token.tag] = token\n                    port = size_port\n"
+           "                    if len(self.token_map.setdefault(token.tag, [])) == token.value:\n"
+           "                        await self._gather(token.tag)\n                        keys_completed.add(token.tag)\n")
+_IN_ARM = ("                    if logger.isEnabledFor(logging.DEBUG):\n                        logger.debug(f'Step {self.name} received input {token.tag}')\n"
+           "                    key = '.'.join(token.tag.split('.')[:-self.depth])\n                    self.token_map.setdefault(key, []).append(token)\n"
+           "                    port = input_port\n                    size_value = self.size_map[key].value if key in self.size_map else None\n"
+           "                    if len(self.token_map.setdefault(key, [])) == size_value:\n"
+           "                        await self._gather(key)\n                        keys_completed.add(key)\n")
+_ARMS = "                if task_name == '__size__':\n" + _SZ_ARM + "                else:\n" + _IN_ARM
+_REARM = "                unfinished.add(asyncio.create_task(port.get(posixpath.join(self.name, task_name)), name=task_name))"
+
+
+def _dedent4(t: str) -> str:
+    return "".join(line[4:] + "\n" for line in t.splitlines())
+
+
 VARIANTS = [
     # ---- R1
     V("compare_tags: int() dropped on both components (three-way string compare)", UFILE, CT,
@@ -1423,6 +1533,18 @@ VARIANTS = [
     V("run: re-arm only when the list fired", SFILE, _R,
       "                unfinished.add(asyncio.create_task(port.get(posixpath.join(self.name, task_name)), name=task_name))",
       "                if token.tag in keys_completed:\n                    unfinished.add(asyncio.create_task(port.get(posixpath.join(self.name, task_name)), name=task_name))", "R4"),
+    V("run: arms swapped under a negated test, but the element arm re-arms the size port", SFILE, _R, _ARMS,
+      "                if not task_name == '__size__':\n" + _IN_ARM.replace("port = input_port", "port = size_port") + "                else:\n" + _SZ_ARM, "R4"),
+    V("run: port defaulted to the size port before the branch, the element arm no longer assigns it", SFILE, _R, _ARMS,
+      "                port = size_port\n                if task_name == '__size__':\n" + _SZ_ARM.replace("                    port = size_port\n", "")
+      + "                else:\n" + _IN_ARM.replace("                    port = input_port\n", ""), "R4"),
+    V("run: guard-clause shape whose size arm re-arms the element port", SFILE, _R, _ARMS + _REARM,
+      "                if task_name == '__size__':\n" + _SZ_ARM.replace("port = size_port", "port = input_port") + "    " + _REARM + "\n                    continue\n"
+      + _dedent4(_IN_ARM) + _REARM, "R4"),
+    V("run: forced gather only when the status IS failed (double negation)", SFILE, _R, "if status != Status.FAILED:", "if not status != Status.FAILED:", "R4"),
+    V("run: in-loop completed filter lets only the gathered keys through (negated spelling)", SFILE, _R,
+      "        for key in (k for k in self.token_map.keys() if k not in keys_completed):\n",
+      "        for key in list(self.token_map):\n            if not key in keys_completed:\n                continue\n", "R4"),
     # ---- R5
     V("run: size/element reader re-armed under the element port's consumer id (round-2 seeded change)", SFILE, _R,
       "port.get(posixpath.join(self.name, task_name)), name=task_name", "port.get(posixpath.join(self.name, port_name)), name=task_name", "R5", control=True),
@@ -1483,6 +1605,23 @@ VARIANTS = [
     V("benign: forced gather filters in the loop body", SFILE, _R,
       "        for key in (k for k in self.token_map.keys() if k not in keys_completed):\n",
       "        for key in list(self.token_map):\n            if key in keys_completed:\n                continue\n", None),
+    V("benign: run with the arrival arms swapped under `if not task_name == '__size__'` (ifswap)", SFILE, _R, _ARMS,
+      "                if not task_name == '__size__':\n" + _IN_ARM + "                else:\n" + _SZ_ARM, None),
+    V("benign: run with the arrival arms swapped under `!=`, constant on the left", SFILE, _R, _ARMS,
+      "                if '__size__' != task_name:\n" + _IN_ARM + "                else:\n" + _SZ_ARM, None),
+    V("benign: run decides the arrival through a local boolean", SFILE, _R, "                if task_name == '__size__':",
+      "                from_size = '__size__' == task_name\n                if from_size:", None),
+    V("benign: run defaults the port to the element port before the branch", SFILE, _R, _ARMS,
+      "                port = input_port\n                if task_name == '__size__':\n" + _SZ_ARM + "                else:\n" + _IN_ARM.replace("                    port = input_port\n", ""), None),
+    V("benign: run as a guard clause, each arm re-arms its own port and the size arm continues", SFILE, _R, _ARMS + _REARM,
+      "                if task_name == '__size__':\n" + _SZ_ARM + "    " + _REARM + "\n                    continue\n" + _dedent4(_IN_ARM) + _REARM, None),
+    V("benign: run guards the forced gather with `not status == FAILED`", SFILE, _R, "if status != Status.FAILED:", "if not status == Status.FAILED:", None),
+    V("benign: run returns early on FAILED before the forced gather", SFILE, _R,
+      "    if status != Status.FAILED:\n        for key in (k for k in self.token_map.keys() if k not in keys_completed):",
+      "    if status == Status.FAILED:\n        await self.terminate(self._get_status(status))\n        return\n    if True:\n        for key in (k for k in self.token_map.keys() if k not in keys_completed):", None),
+    V("benign: forced gather filters in the loop body with a double negation", SFILE, _R,
+      "        for key in (k for k in self.token_map.keys() if k not in keys_completed):\n",
+      "        for key in list(self.token_map):\n            if not key not in keys_completed:\n                continue\n", None),
     V("benign: run re-arms through the name-keyed accessor", SFILE, _R, "port.get(posixpath.join(self.name, task_name))", "self.get_input_port(task_name).get(posixpath.join(self.name, task_name))", None),
     V("benign: run logging and reordered independent statements", SFILE, _R,
       "                    self.size_map[token.tag] = token\n                    port = size_port",
